@@ -5,6 +5,7 @@ import (
 	"go/constant"
 	"go/token"
 	"go/types"
+	"math/big"
 	"os"
 	"runtime/debug"
 	"strings"
@@ -810,7 +811,12 @@ func (t *Thread) convert(v Value, from, to types.Type) Value {
 		if isInteger(tu) {
 			w := typeWidth(tu)
 			if x.W == WReal {
-				unsupportedf("float to int conversion")
+				if x.IsConst() {
+					// truncation toward zero
+					q := new(big.Int).Quo(x.Rat.Num(), x.Rat.Denom())
+					return MkBV(q.Uint64(), w)
+				}
+				unsupportedf("float to int conversion of a symbolic value")
 			}
 			if w <= x.W {
 				return Extract(x, w-1, 0)
